@@ -6,6 +6,7 @@
 
 mod alloc;
 mod codecs;
+mod converge;
 mod dec;
 mod docs;
 mod evt; mod stk;
@@ -117,6 +118,11 @@ fn cmd_search(args: &[String]) -> i32 {
         i += 1;
     }
     let target = target.unwrap_or_else(|| die(USAGE));
+    // convergence / sequence order under every delivery schedule (converge.rs: converge | conv_seq | conv_map | conv_nested)
+    if converge::is_target(&target) {
+        let deadline = max_seconds.map(|t| Instant::now() + Duration::from_secs_f64(t.max(0.0)));
+        return converge::cmd_search(&target, universe, jobs, deadline);
+    }
     // update events as a replication log (updlog.rs: updlog | updlog_strict | updlog_peek)
     if updlog::is_target(&target) {
         let deadline = max_seconds.map(|t| Instant::now() + Duration::from_secs_f64(t.max(0.0)));
@@ -153,7 +159,7 @@ fn cmd_search(args: &[String]) -> i32 {
         die(&format!("--universe must be in 1..={}", MAX_UNIVERSE));
     }
     let groups = search::groups_for(&target)
-        .unwrap_or_else(|| die(&format!("unknown target {:?}; targets: {} | {} | {} | {} | {} | {} | {}", target, search::TARGETS, ext::TARGETS, evt::TARGETS, stk::TARGETS, mapread::TARGETS, quote::TARGETS, updlog::TARGETS)));
+        .unwrap_or_else(|| die(&format!("unknown target {:?}; targets: {} | {} | {} | {} | {} | {} | {} | {}", target, search::TARGETS, ext::TARGETS, evt::TARGETS, stk::TARGETS, mapread::TARGETS, quote::TARGETS, updlog::TARGETS, converge::TARGETS)));
     let mut s = Search {
         n: universe,
         seed,
@@ -226,6 +232,9 @@ fn cmd_replay(args: &[String]) -> i32 {
     }
     if j.get("op").is_none() {
         die("replay: the JSON carries no case (no \"op\" field)");
+    }
+    if converge::owns(&j) {
+        return converge::cmd_replay(&j).unwrap_or_else(|e| die(&format!("replay: {}", e)));
     }
     if updlog::owns(&j) {
         return updlog::cmd_replay(&j).unwrap_or_else(|e| die(&format!("replay: {}", e)));
